@@ -634,6 +634,7 @@ def _check_scc(ctx, prog, cg, comp):
     # kind (b): budgeted
     problems = []
     dec_edges = set()
+    same_edges = set()
     for k in comp:
         f = F(k)
         bp = _budget_param(f)
@@ -670,12 +671,14 @@ def _check_scc(ctx, prog, cg, comp):
                     while a[0] in ("ref", "deref"):
                         a = a[1]
                 if a == ("param", bp):
+                    same_edges.add((k, tgt))     # handed on unchanged at this site
                     continue
                 if _is_decrement(a, bp):
                     dec_edges.add((k, tgt))
                     continue
                 problems.append("%s -> %s: budget argument %s is neither the budget nor budget.checked_sub(1)?" % (k, tgt, show(a)[:100]))
-    # without the decrementing edges the component must be acyclic
+    # without the decrementing edges the component must be acyclic; an edge decrements only if EVERY call site on it does
+    dec_edges -= same_edges
     if not problems:
         sub = {k: [t for t in cg.succ(k) if t in compset and (k, t) not in dec_edges] for k in comp}
         if _has_cycle(sub):
